@@ -30,7 +30,8 @@ class DmWorld:
         self.bus = bus = Bus(w, base_lat=cfg.get('base_lat', 1e-3), lat_grid=cfg.get('lat_grid'))
         self.C = Stack(bus, 'C')
         self.S = Stack(bus, 'S')
-        self.cca = self.C.add_ca(CLI, name_value=0x501)
+        self.cli_addr = cfg.get('cli', CLI)
+        self.cca = self.C.add_ca(self.cli_addr, name_value=0x501)
         self.sca = self.S.add_ca(SRV, name_value=0x502)
         self.cli = j1939.MemoryAccess(self.cca)
         self.srv = j1939.MemoryAccess(self.sca)
